@@ -533,6 +533,31 @@ namespace c18
       std::vector<long double> ref, aref; ref_apply(M1, vc, ref, aref);
       const long double vmax = max_abs_v(vc);
       if(!skip_imv) for(Index i = 0; i < ndf; ++i) VF_CHECK(std::fabs((long double)t1(i) - ref[i]) <= 8.0L * 64.0L * (long double)(max_row_len(P) + 3) * (eps / 2) * (aref[i] + pmax * vmax) + 1e-300L, "intermesh: vector transfer [" << i << "]=" << (double)t1(i) << " vs matrix " << (double)ref[i]);
+      // reverse direction (no tape draws): target = coarse space, source = fine space, adjactor coarse cell -> its children.
+      // With an odd Gauss-Legendre rule on hypercubes the midpoint coordinates of the coarse cubature points lie ON the
+      // interfaces between the children: such a point is found in 2^m source cells and enters with the documented averaging
+      // weight 1/2^m.  The result is the local L2 projection onto the coarse space, a left inverse of the prolongation (nested spaces).
+      if(!simplex && em.nested)
+      {
+        omp_set_num_threads(1);
+        std::vector<Index> cptr(ncc + 1, 0), cidx(nfc); for(Index f = 0; f < nfc; ++f) cptr[Index(rel.parent[f]) + 1]++; for(Index q = 0; q < ncc; ++q) cptr[q + 1] += cptr[q];
+        { std::vector<Index> pos(cptr.begin(), cptr.end() - 1); for(Index f = 0; f < nfc; ++f) cidx[pos[Index(rel.parent[f])]++] = f; }
+        Adjacency::Graph c2f(ncc, nfc, nfc, cptr.data(), cidx.data());
+        int npts = (need + extra) / 2 + 1; if(npts % 2 == 0) ++npts; if(npts > 19) npts = 19;
+        const String rcub = "gauss-legendre:" + std::to_string(npts);
+        Mat Tm = P.transpose(); Tm.format(); Vec wr(ndc, DT_(0));
+        int failed = Assembly::GridTransfer::assemble_intermesh_transfer(Tm, wr, sc, sf, c2f, rcub);
+        VF_CHECK(failed == 0, "intermesh (fine->coarse, " << rcub.c_str() << "): " << failed << " cubature points could not be unmapped");
+        wr.component_invert(wr); Tm.scale_rows(Tm, wr);
+        std::vector<long double> y, ay; ref_apply(P, vc, y, ay);
+        long double tmax = 0; for(Index k = 0; k < Tm.used_elements(); ++k) tmax = std::max(tmax, std::fabs((long double)Tm.val()[k]));
+        const long double vmx = max_abs_v(vc), tolr = std::max(tf, 1e5L) * eps * (tmax * pmax * vmx * (long double)(max_row_len(P) + 3) + vmx) + 1e-300L;
+        for(Index i = 0; i < Tm.rows(); ++i)
+        {
+          long double z = 0; for(auto k = Tm.row_ptr()[i]; k < Tm.row_ptr()[i + 1]; ++k) z += (long double)Tm.val()[k] * y[Tm.col_ind()[k]];
+          VF_CHECK(std::fabs(z - (long double)vc(i)) <= tolr, "intermesh (fine->coarse, " << rcub.c_str() << ", cubature points on the child interfaces): (T P c)[" << i << "] = " << (double)z << " but c[" << i << "] = " << (double)vc(i) << " (tol " << (double)tolr << ")");
+        }
+      }
       if(nthreads > 1)
       {
         run(nthreads, Mn, tn);
